@@ -135,6 +135,7 @@ def generate(tier):
         "hcarry": dict(module="Scen_SubmitterHist", cfg="Scen_SubmitterHist_carry.cfg", exhaustive=True),
         "hover": dict(module="Scen_SubmitterHist", cfg="Scen_SubmitterHist_overlap.cfg", exhaustive=True),
         "hkinds": dict(module="Scen_SubmitterHist", cfg="Scen_SubmitterHist_kinds.cfg", exhaustive=True),
+        "hwide": dict(module="Scen_SubmitterHist", cfg="Scen_SubmitterHist_wide.cfg", exhaustive=True),
         "hsim": dict(module="Scen_SubmitterHist", cfg="Scen_SubmitterHist_sim.cfg", num=max(60, nh // 6), depth=40),
         "dvec": dict(module="Scen_SubmitterDirect", cfg="Scen_SubmitterDirect_vec.cfg", exhaustive=True),
         "dsim": dict(module="Scen_SubmitterDirect", cfg="Scen_SubmitterDirect_sim.cfg", num=60 if tier == "quick" else 300, depth=16),
@@ -171,7 +172,12 @@ def hist_scenarios(tier, rnd, gen):
         # precede it) or a hanging node (each of the 8 submissions lasts T + tolerance) are sampled
         rest = [k for k in kinds if not _core_vector(k)]
         kinds = [k for k in kinds if _core_vector(k)] + rnd.sample(rest, 40)
-    out += carry + over + kinds + sim[:n]
+    # ONE kind configured with the whole pool, every other kind with node 1 only, process concurrency = pool size,
+    # the wide kind submitted with a hanging node and an accepting one: 8 kinds x 12 vectors (both tiers in full)
+    wide = gen["hwide"]
+    if len(wide) != 96:
+        raise vf.Broken("expected 96 wide-kind histories, got %d" % len(wide))
+    out += carry + over + kinds + wide + sim[:n]
     return out
 
 
